@@ -1017,7 +1017,7 @@ func c09NumIdentStream(c *Cfg, r *Rng) {
 		}
 	}
 	rec("", depth)
-	fixed := []string{"0", "00", "01", "09", "0.", "00.5", "0e1", "0E", "0K", "0Ki", "0Kii", "1K", "1Ki", "1.5K", "1.0005K", ".1_Ki", ".1Ki\x00", "1.5_Ki", "1._5Ki", ".5", ".5K", "._5", "_1", "1_", "1__2", "1_000", "0x", "0x_", "0x_1", "0X1f", "0b", "0b2", "0b102", "0o8", "0o17", "0B1", "0O1", "1e", "1e+", "1e_5", "1e5K", "1.", "1..", "1.2.3", "1._5", "1.e5", "1\x00", "1é", "\x00", "1P", "1Pi", "1E", "1Z", "1Y", "123456789012345678901234567890123456789K", "1Ti", "9G", "0.0", "0_1", "0_", "0_.5", "1 ", " 1", "1\n"}
+	fixed := []string{"0", "00", "01", "09", "0.", "00.5", "0e1", "0E", "0K", "0Ki", "0Kii", "-0K", "+0K", "-0Ki", "-0.K", "-0.Ki", "-0.Mi", "-0.0K", "-00.5K", "-.5K", "1e100001", "1e-100001", "1E999999999", "1K", "1Ki", "1.5K", "1.0005K", ".1_Ki", ".1Ki\x00", "1.5_Ki", "1._5Ki", ".5", ".5K", "._5", "_1", "1_", "1__2", "1_000", "0x", "0x_", "0x_1", "0X1f", "0b", "0b2", "0b102", "0o8", "0o17", "0B1", "0O1", "1e", "1e+", "1e_5", "1e5K", "1.", "1..", "1.2.3", "1._5", "1.e5", "1\x00", "1é", "\x00", "1P", "1Pi", "1E", "1Z", "1Y", "123456789012345678901234567890123456789K", "1Ti", "9G", "0.0", "0_1", "0_", "0_.5", "1 ", " 1", "1\n"}
 	for _, s := range fixed {
 		c09NumCase(c, s, true)
 	}
